@@ -130,7 +130,7 @@ def run_c18(tier):
     rep.add_tlc('MCErrResp', r, 'response lemmas (escaped length <= limit, maximal cut, quotes doubled, unescape = prefix) for all texts <= 7 over {a, quote, ;} x limits 0..8')
     if r.violations:
         rep.broken.append('specification violates %s (MCErrResp)' % r.violations)
-    for cfg in ('default', 'heap'):
+    for cfg in ('default', 'heap', 'usererr'):      # usererr: the documented user error list, with descriptions of our own (harness/usererr)
         exe = lib.build('drv_errq', ['drv_errq.c'], config=cfg, link=WRAP)
         info = driver(rep, exe, ['resp', lib.seed(), tier, w + '/r.ndjson'], 'resp ' + cfg)
         if info is None:
